@@ -4,5 +4,6 @@ import MiniconfVerif.Props.C09
 #print axioms MiniconfVerif.C09.decode
 #print axioms MiniconfVerif.C09.unique
 #print axioms MiniconfVerif.C09.bounded
+#print axioms MiniconfVerif.C09.order
 #print axioms MiniconfVerif.C09.widthsAgree_kid
 #print axioms MiniconfVerif.C09.append_stable
